@@ -42,6 +42,7 @@ func MakeBatch(spec BatchSpec) *index.Batch {
 type Opts struct {
 	Unsafe        bool
 	EagerMerge    bool // merge plan scaled down so that 2-3 one-document segments merge
+	MergeFloor1   bool // with EagerMerge: floor segment size 1, so that of three one-document segments two are merged and one stays
 	NoMemMerge    bool // never merge in memory
 	Retain        int  // snapshots kept by the deletion policy (default 1)
 	NapMS         int
@@ -71,9 +72,12 @@ func Config(dir index.Directory, o Opts) bluge.Config {
 			MaxSegmentSize:       1000,
 			TierGrowth:           2.0,
 			SegmentsPerMergeTask: 2,
-			FloorSegmentSize:     1,
+			FloorSegmentSize:     10, // any two small file segments exceed the budget of 1 and are merged
 			ReclaimDeletesWeight: 2.0,
 		}
+	}
+	if o.EagerMerge && o.MergeFloor1 {
+		ic.MergePlanOptions.FloorSegmentSize = 1
 	}
 	if o.NoMemMerge {
 		ic.MinSegmentsForInMemoryMerge = 1 << 30
